@@ -22,6 +22,9 @@ Definition line_lengths (caps : list (str * str)) : list (list nat) :=
 Definition names (msg l : str) : bool :=
   is_infix (l ++ lit " - Length " ++ dec_nonneg (Z.of_nat (length l)) ++ [10]) msg.
 
+(* the weakest reading of "naming each offending line": the message contains the text of the line *)
+Definition mentions (msg l : str) : bool := is_infix l msg.
+
 Definition nil_b {A} (l : list A) : bool := match l with [] => true | _ => false end.
 
 (* property oracle: outcome = None (captions returned) or Some message (line-length error) *)
@@ -29,6 +32,14 @@ Definition ok_c15 (caps : list (str * str)) (outcome : option str) : bool :=
   match outcome with
   | None => nil_b (offending caps)
   | Some msg => negb (nil_b (offending caps)) && forallb (names msg) (offending caps)
+  end.
+
+(* the same with the weakest reading of "naming" (used by the harness: the exact message format is not part of the
+   statement) *)
+Definition ok_c15_loose (caps : list (str * str)) (outcome : option str) : bool :=
+  match outcome with
+  | None => nil_b (offending caps)
+  | Some msg => negb (nil_b (offending caps)) && forallb (mentions msg) (offending caps)
   end.
 
 (* the decision as a function of the line lengths alone *)
